@@ -27,6 +27,15 @@ def gen(rng, index, tier):
         meta["family"] = "identical"
     else:
         raw, meta = lib.gen_dataset(rng, nmax=nmax, mmax=5, family=fam)
+        if rng.random() < 0.6 and len(lib.dataset_elems(raw)) >= 3:
+            # make sure an incomplete ranking with a tie is present (the counts of _where_should_it_be then mix
+            # "tied", "only one ranked" and "none ranked")
+            els = lib.dataset_elems(raw)
+            sub = rng.sample(els, rng.randint(2, len(els) - 1))
+            r = lib.gen_ranking(rng, sub, 0.7, "complete")
+            if all(len(b) == 1 for b in r) and len(r) >= 2:
+                r = [r[0] + r[1]] + r[2:]
+            raw.insert(rng.randrange(len(raw) + 1), r)
     n = len(lib.dataset_elems(raw))
     exhaustive = n <= (4 if tier == "quick" else 5)
     scripts = None if exhaustive else [[rng.randrange(0, 50) for _ in range(n)] for _ in range(3)]
